@@ -9,9 +9,10 @@ Traces == JsonDeserialize(IOEnv.TRACE_FILE)
 NT == Len(Traces)
 VARIABLES t, l,
           mix,        \* ids of plain mixin classes of the current run
+          conf,       \* digest of the retained configuration objects ("" = not yet seen in this run)
           tainted,    \* keys of classes one of whose descendants overrode a parameter by a bare value (whole trace)
           degraded    \* a known deviation happened in this run: only Frame is decided until reset
-tvars == <<vars, t, l, mix, tainted, degraded>>
+tvars == <<vars, t, l, mix, conf, tainted, degraded>>
 ASSUME \A i \in 1 .. NT : TLCSet(i, 1) /\ TLCSet(NT + i, 0)
 
 Ev == Traces[t][l]
@@ -36,7 +37,9 @@ Viol(e) ==
       x == e.x
       ok == x \notin BadOf(e)
       k == Key(d2, n2, x)
-  IN IF DOMAIN nd # Live \cup {x} THEN "Frame: set of live objects"
+  IN IF conf # "" /\ e.conf # conf THEN "Frame: retained configuration changed"   \* instances are created from shallow
+                                              \* copies of ONE configuration object: using it must not change it
+     ELSE IF DOMAIN nd # Live \cup {x} THEN "Frame: set of live objects"
      ELSE IF \E y \in Live \ {x} : nd[y] # desc[y] THEN "Frame"
      ELSE IF BadOf(e) \ {x} # bad \ {x} THEN "Frame: refused set"
      ELSE IF degraded THEN ""
@@ -104,10 +107,11 @@ DevStep(e) == /\ defs' = NewDefs(e) /\ insts' = insts /\ desc' = D(e) /\ bad' = 
               /\ degraded' = TRUE
 DevNote(kind) == TLCSet(NT + t, IF TLCGet(NT + t) = 0 THEN 10 * l + kind ELSE TLCGet(NT + t))
 
-TInit == Init /\ t \in 1 .. NT /\ l = 1 /\ mix = {} /\ tainted = {} /\ degraded = FALSE
+TInit == Init /\ t \in 1 .. NT /\ l = 1 /\ mix = {} /\ conf = "" /\ tainted = {} /\ degraded = FALSE
 
 TStep ==
   /\ l <= Len(Traces[t]) /\ t' = t
+  /\ conf' = (IF l <= Len(Traces[t]) THEN Ev.conf ELSE conf)
   /\ LET e == Ev IN
      IF e.ev = "reset"
      THEN Reset /\ mix' = {} /\ degraded' = FALSE /\ l' = l + 1 /\ UNCHANGED tainted
@@ -123,7 +127,7 @@ TStep ==
           ELSE IF v # ""
           THEN /\ PrintT(<<"REJECT", t, l, v>>)
                /\ l' = Len(Traces[t]) + 2            \* dead: no ACCEPT for this trace
-               /\ UNCHANGED <<vars, mix, tainted, degraded>>
+               /\ UNCHANGED <<vars, mix, tainted, degraded>>   \* (conf: see above)
           ELSE /\ Apply(e) /\ l' = l + 1
                /\ mix' = (IF e.ev = "defclass" /\ e.mixin THEN mix \cup {e.x} ELSE mix)
                /\ tainted' = Taint(e)
